@@ -66,11 +66,14 @@ def compareSql (km : KindMap) (q : Option Cy.Query) (bagCols : List Nat) (so su 
     let ro := rowsOf bagCols to
     let ru := rowsOf bagCols tu
     let show_ := s!"graph={renderGraph g} optimised={(renderRows ro).replace " " "_"} unoptimised={(renderRows ru).replace " " "_"}"
+    -- is the difference only in multiplicities (same set of distinct rows)?
+    let setEq := ro.all (fun r => ru.any (rowEq r)) && ru.all (fun r => ro.any (rowEq r))
+    let rowsStage := if setEq then "multiplicity" else "rows"
     if topCut su && !topOrdered su then
       -- arbitrary subset semantics
       match Sql.eval db (stripCut su) [] with
       | .ok tf =>
-        if ro.length == ru.length && bagSub ro (rowsOf bagCols tf) then .agree else .differ "rows" show_
+        if ro.length == ru.length && bagSub ro (rowsOf bagCols tf) then .agree else .differ rowsStage show_
       | .error _ => if bagEq ro ru then .agree else .unmodelled "uncut-statement-does-not-evaluate"
     else if topOrdered su then
       if ro.length == ru.length && (ro.zip ru).all (fun p => rowEq p.1 p.2) then .agree
@@ -78,9 +81,9 @@ def compareSql (km : KindMap) (q : Option Cy.Query) (bagCols : List Nat) (so su 
         -- ORDER BY + LIMIT may cut inside ties: then any completion of the tie block is valid
         if topCut su then
           match Sql.eval db (stripCut su) [] with
-          | .ok tf => if ro.length == ru.length && bagSub ro (rowsOf bagCols tf) then .agreeBagOnly else .differ "rows" show_
-          | .error _ => .differ "rows" show_
-        else .differ "rows" show_
+          | .ok tf => if ro.length == ru.length && bagSub ro (rowsOf bagCols tf) then .agreeBagOnly else .differ rowsStage show_
+          | .error _ => .differ rowsStage show_
+        else .differ rowsStage show_
       else
         -- same multiset, different order: fine iff both are orderings the reference semantics accepts (ties)
         match q with
@@ -90,7 +93,7 @@ def compareSql (km : KindMap) (q : Option Cy.Query) (bagCols : List Nat) (so su 
             if sameRows g km true bagCols crows ro && sameRows g km true bagCols crows ru then .agree else .agreeBagOnly
           | .error _ => .agreeBagOnly
         | none => .agreeBagOnly
-    else if bagEq ro ru then .agree else .differ "rows" show_
+    else if bagEq ro ru then .agree else .differ rowsStage show_
 
 /-- the optimiser's rewritten query against the query as written, under the reference semantics -/
 def compareCy (km : KindMap) (q q' : Cy.Query) (bagCols : List Nat) (g : Graph) : Res :=
@@ -123,9 +126,9 @@ def step (_ : Unit) (ts : List String) : Unit × String :=
           if (match q with | some cq => cq.parts.any (fun p => unorderedCut p.proj) | none => false) then
             ((), "unmodelled nondeterministic:with-limit-without-order-by") else
           let bagCols := match q with | some cq => bagColumns cq | none => []
-          let graphs := (graphsFor gseed nrandom exN exE).filter (fun g => match q with
-            | some cq => graphAllowed cq g
-            | none => g.edges.length ≤ 3 && g.nodes.length ≤ 3)
+          let graphs := match q with
+            | some cq => graphsWithin cq gseed nrandom exN exE
+            | none => (graphsFor gseed nrandom exN exE).filter (fun g => g.edges.length ≤ 3 && g.nodes.length ≤ 3)
           let sqlRes := graphs.map (compareSql km q bagCols so su)
           let cyRes := match q, q' with
             | some cq, some cq' => if cq == cq' then [] else
@@ -134,7 +137,18 @@ def step (_ : Unit) (ts : List String) : Unit × String :=
           let isAgree := fun (r : Res) => match r with | .agree => true | .agreeError _ => true | _ => false
           let isBag := fun (r : Res) => match r with | .agreeBagOnly => true | _ => false
           let isUn := fun (r : Res) => match r with | .unmodelled _ => true | _ => false
-          let diffs := (sqlRes ++ cyRes).filterMap (fun r => match r with | .differ st d => some (st, d) | _ => none)
+          let hasLoop := fun (g : Graph) => g.edges.any (fun e => e.start == e.stop)
+          let tagged := ((graphs.zip sqlRes) ++ (graphs.zip cyRes)).filterMap (fun p => match p.2 with
+            | .differ st d => some (st, d, hasLoop p.1)
+            | _ => none)
+          -- witness: prefer a difference in the SET of rows over one in multiplicities only, and a loop-free graph over one with self loops
+          let rank := fun (t : String × String × Bool) => (if t.1 == "multiplicity" then 2 else 0) + (if t.2.2 then 1 else 0)
+          let best := tagged.foldl (fun (acc : Option (String × String × Bool)) t => match acc with
+            | none => some t
+            | some a => if rank t < rank a then some t else some a) none
+          let diffs := match best with
+            | some (st, d, lp) => [(st, (if lp then "witness=self-loop-graph " else "witness=loop-free-graph ") ++ d)]
+            | none => []
           -- tie of the count-store fast path theorem: are these the two statement shapes `count_fast_path_preserves` is about?
           let cfp := if so == C02.cfpOpt then (if su == C02.cfpUnopt then " cfp-tie=ok" else " cfp-tie=differs") else ""
           let counts := s!"graphs={graphs.length} sql-agree={countBy sqlRes isAgree} sql-bag-only={countBy sqlRes isBag} sql-unmodelled={countBy sqlRes isUn} cy-compared={cyRes.length} cy-agree={countBy cyRes isAgree} cy-unmodelled={countBy cyRes isUn}{cfp}"
